@@ -1,4 +1,4 @@
-from ..rules import r_frame, r_codec, r_null
+from ..rules import r_frame, r_codec, r_null, r_io
 
 
 def run(prog, rep):
@@ -17,5 +17,6 @@ def run(prog, rep):
     r_frame.run_io(prog, rep)
     r_frame.run_schema(prog, rep)
     r_frame.run_front(prog, rep)
+    r_io.run_strio(prog, rep)
     r_codec.run_datatype(prog, rep)
     r_null.run_strings(prog, rep)
